@@ -439,7 +439,7 @@ func verifC09Rank(rx, ry, rz int) {}
 //@   ensures p.row === old(p.row) && p.keys == old(p.keys)
 
 //@ func (p *Projection) internRow() (r Key)
-//@   props C08
+//@   props C08 C14
 //@   requires p != nil && p.keys != nil && keysOK(p) && bucketsApart(p)
 //@   modifies p, p.keys, heap(map[string]int), heap(*keyNode)
 //@   ensures r.k != nil && r.k.proj == p && trimOf(r.k.vals, old(p.row))
